@@ -793,6 +793,18 @@ func (x *Exec) specCall(e *ast.CallExpr, sc *SpecScope, st *State) *Value {
 		}
 		et := types.Unalias(v.T).Underlying().(*types.Slice).Elem()
 		return &Value{Tm: x.sliceContents(st, v.Tm, x.sortOf(et), et)}
+	case "first":
+		// first(x): the value local x received at its declaration
+		id, ok := e.Args[0].(*ast.Ident)
+		if !ok {
+			panic(engErr("first(local) expected"))
+		}
+		if len(x.frames) > 0 {
+			if v, ok := x.frames[0].firstVal[id.Name]; ok {
+				return v
+			}
+		}
+		panic(engErr("first(%s): no such declared local", id.Name))
 	case "lebits":
 		// lebits(arr, lo, n): bits lo .. lo+n-1 of the little-endian byte array arr (a [N]byte value in
 		// bv mode), zero-extended to 64 bits
